@@ -60,6 +60,8 @@ type Types struct {
 	faCount int
 	ZeroAxiom map[string]*smt.Term // defining axioms of named all-zero arrays (see ZeroArray)
 	tpSorts map[string]*smt.Sort
+	ownedDecl map[string]bool
+	owned     map[string]*ownedInfo
 }
 
 func NewTypes(d *smt.Decls) *Types {
@@ -194,6 +196,9 @@ func (ts *Types) sortOf(t types.Type) *smt.Sort {
 			return smt.Int
 		}
 	case *types.Pointer, *types.Map, *types.Chan, *types.Signature:
+		if oi := ts.OwnedOf(t); oi != nil {
+			return oi.Sort
+		}
 		return smt.Int
 	case *types.Slice:
 		return SliceSort
@@ -267,6 +272,9 @@ func (ts *Types) Zero(t types.Type) *smt.Term {
 			return smt.IntLit(0)
 		}
 	case *types.Pointer, *types.Map, *types.Chan, *types.Signature:
+		if oi := ts.OwnedOf(t); oi != nil {
+			return oi.NilTerm()
+		}
 		return smt.IntLit(0)
 	case *types.Slice:
 		return NilSlice
@@ -343,3 +351,90 @@ func (ts *Types) Inv(v *smt.Term, t types.Type, depth int) *smt.Term {
 	}
 	return smt.True
 }
+
+// ---- owned recursive structures (memory model M2)
+//
+// A struct type declared `owned type T` in a contract file is the node type of a tree-shaped
+// structure: every node is referenced by exactly one pointer (its owner), so the structure below a
+// pointer is a value. Pointers to such a type have the sort of a recursive datatype
+//     Own_T = nil | node(fields of T)
+// instead of being references into a heap. The executor checks the ownership discipline that makes
+// this reading sound (see owned.go).
+
+type ownedInfo struct {
+	Sort   *smt.Sort
+	Nil    *smt.Ctor
+	Node   *smt.Ctor
+	Fields []*types.Var
+	Elem   types.Type
+	Self   []bool // field i is a pointer to the same node type
+}
+
+// DeclareOwned marks the (origin) named struct type as owned.
+func (ts *Types) DeclareOwned(t types.Type) {
+	if ts.ownedDecl == nil {
+		ts.ownedDecl = map[string]bool{}
+		ts.owned = map[string]*ownedInfo{}
+	}
+	if n, ok := t.(*types.Named); ok {
+		t = n.Origin()
+	}
+	ts.ownedDecl[typeKey(t)] = true
+}
+
+// OwnedOf returns the datatype description if t is a pointer to an owned struct type, else nil.
+func (ts *Types) OwnedOf(t types.Type) *ownedInfo {
+	if ts.ownedDecl == nil || t == nil {
+		return nil
+	}
+	pt, ok := t.Underlying().(*types.Pointer)
+	if !ok {
+		return nil
+	}
+	n, ok := pt.Elem().(*types.Named)
+	if !ok {
+		return nil
+	}
+	if !ts.ownedDecl[typeKey(n.Origin())] {
+		return nil
+	}
+	key := typeKey(n)
+	if oi, ok := ts.owned[key]; ok {
+		return oi
+	}
+	st, ok := n.Underlying().(*types.Struct)
+	if !ok {
+		unsupp("owned type %s is not a struct", n)
+	}
+	name := "Own_" + sanitize(key)
+	if len(name) > 80 {
+		name = fmt.Sprintf("%s_%d", name[:60], len(ts.owned))
+	}
+	oi := &ownedInfo{Elem: n}
+	ts.owned[key] = oi
+	oi.Nil = &smt.Ctor{Name: "nil$" + name}
+	oi.Node = &smt.Ctor{Name: "node$" + name}
+	oi.Sort = smt.NewData(name, oi.Nil, oi.Node)
+	for i := 0; i < st.NumFields(); i++ {
+		f := st.Field(i)
+		var fs *smt.Sort
+		self := false
+		if fpt, ok := f.Type().Underlying().(*types.Pointer); ok && types.Identical(fpt.Elem(), n) {
+			fs = oi.Sort
+			self = true
+		} else {
+			fs = ts.SortOf(f.Type())
+		}
+		oi.Node.Fields = append(oi.Node.Fields, smt.Field{Name: fmt.Sprintf("%s-%s", name, sanitize(f.Name())), Sort: fs})
+		oi.Fields = append(oi.Fields, f)
+		oi.Self = append(oi.Self, self)
+	}
+	ts.D.AddSort(oi.Sort)
+	return oi
+}
+
+func (oi *ownedInfo) NilTerm() *smt.Term { return smt.MkCtor(oi.Sort, oi.Nil) }
+
+func (oi *ownedInfo) IsNil(t *smt.Term) *smt.Term { return smt.Is(oi.Nil, t) }
+
+func (oi *ownedInfo) Field(i int, t *smt.Term) *smt.Term { return smt.Acc(oi.Sort, oi.Node, i, t) }
